@@ -11,8 +11,11 @@ pub mod oracle;
 pub mod spec;
 pub mod stubs;
 
+pub mod iters;
 pub mod obs;
+pub mod setops;
 pub mod step;
+pub mod views;
 
 /// Declares the harness instances: a `#[kani::proof]` wrapper under Kani and an entry of the
 /// native dispatch table otherwise.
@@ -48,6 +51,8 @@ macro_rules! harnesses {
         #[kani::proof]
         #[kani::unwind($unwind)]
         #[kani::stub(std::alloc::Global::grow_impl_runtime, crate::stubs::grow_model)]
+        #[kani::stub(std::alloc::Global::alloc_impl_runtime, crate::stubs::alloc_ladder)]
+        #[kani::stub(std::vec::Vec::append_elements, crate::stubs::append_elements_model)]
         pub fn $name() { let mut s = src::KaniSrc; ($body)(&mut s); }
     };
 }
